@@ -22,6 +22,17 @@ LexLE(a, b) == \* lexicographic <= on equal-length integer tuples
   \E n \in 0..Len(a) : (\A i \in 1..n : a[i] = b[i]) /\ (n = Len(a) \/ a[n + 1] < b[n + 1])
 EdgeKey(t, e) == <<TimeOf(t, e.parent), e.parent, e.child, e.left>>
 MigKey(g) == <<g.time, g.source, g.dest, g.left, g.node>>
+\* build_index: the two index arrays are the permutations of the edge ids in the documented key orders, whatever index the
+\* collection carried before
+InsKey(t, e) == <<e.left, TimeOf(t, e.parent), e.parent, e.child>>
+RemKey(t, e) == <<e.right, -TimeOf(t, e.parent), -e.parent, -e.child>>
+LexLT(a, b) == LexLE(a, b) /\ a # b
+IndexFresh(t, ins, rem) ==
+  LET M == Len(t.edges) IN
+  /\ Len(ins) = M /\ Len(rem) = M
+  /\ {ins[i] : i \in 1..M} = 0..(M - 1) /\ {rem[i] : i \in 1..M} = 0..(M - 1)
+  /\ \A i \in 1..(M - 1) : LexLT(InsKey(t, t.edges[ins[i] + 1]), InsKey(t, t.edges[ins[i + 1] + 1]))
+  /\ \A i \in 1..(M - 1) : LexLT(RemKey(t, t.edges[rem[i] + 1]), RemKey(t, t.edges[rem[i + 1] + 1]))
 PosOfTag(q, tg) == CHOOSE i \in 1..Len(q) : q[i].tag = tg
 SortRel(a, b, es, ss, ms) ==
   {cl \in {"nodes_untouched", "individuals_untouched", "populations_untouched", "edges_permuted", "edges_prefix", "edges_sorted",
